@@ -1,7 +1,11 @@
-(* Refine/QueueRefine.v — the work queue of src/paulie/classifier/morph_factory.py (MorphFactory._get_anti_commutates, _get_max_connected,
-   _append_to_queue, _get_queue), as tools/py2coq.py (py2coq_queue.py) generates it from /repo's working tree on every run of C03: for the members of
-   one connected component (distinct strings of one length whose anticommutation graph is connected) _get_queue terminates and returns a permutation of
-   its input in which every member after the first anticommutes with an earlier one — the order the canonical-graph pipeline relies on. *)
+(* Refine/QueueRefine.v — the part of src/paulie/classifier/morph_factory.py that tools/py2coq.py (py2coq_queue.py) generates from /repo's working tree on every run of C03:
+   (1) the work queue (MorphFactory._get_anti_commutates, _get_max_connected, _append_to_queue, _get_queue): for the members of one connected component (distinct strings of one
+       length whose anticommutation graph is connected) _get_queue terminates and returns a permutation of its input in which every member after the first anticommutes with an
+       earlier one — the order the canonical-graph pipeline relies on;
+   (2) the dependency test of append_to_center (check_dependency_one_leg with get_one_vertices, _gen_one_legs, get_vertices, is_empty_legs): exactly which relations it sees, and
+       a refutation witness — the listed classifier defect — on the source's own test;
+   (3) the primitive edits of the graph (find, is_included, append, remove, replace, get_center, append_to_center): vertex accounting whenever an edit returns;
+   (4) the look-ups the steps are written in (get_lits, lit, get_pq) and the store of cut-off vertices (append_delayed, restore_delayed). *)
 From PauLie Require Import Pauli Collection CollectionT ParserT OtocLoopT MatrixT ClosureN ClosureT.
 From PauLieRefine Require Import PySem.
 From PauLieGen Require Import QueueGen.
